@@ -142,58 +142,32 @@ def answer (line : String) : String :=
     | some nc, some lam, some c, some lb, some ub, some terms, some lin0, some quad0, some off0, some adj0 =>
       let b0 : Bq Nat := { vt := .binary, lin := lin0, quad := quad0, off := off0 }
       let d : Dqm := { ncases := nc, bq := b0, adj := adj0 ++ List.replicate (nc.length - adj0.length) [] }
-      let coeffs := terms.map fun t => t.2.2.num
-      match ineqPlan coeffs c lb ub with
-      | .skip => "skip"
-      | .infeasible => "raise"
-      | .equality ubc =>
-        match dqmAddEq d terms lam (-(ubc : Rat)) with
-        | some d' => "ok ;" ++ showDqm d'
-        | none => "err"
-      | .slack ubc lbc S =>
-        let sv := dqmSlack (hexLabel label) method ubc lbc S (cross = "1")
-        let d1 : Dqm := { d with ncases := nc ++ sv.map (·.ncases), adj := d.adj ++ sv.map (fun _ => []) }
-        let extra := (List.range sv.length).flatMap fun j =>
-          ((sv.getD j { label := "", ncases := 0, cases := [] }).cases.map fun cv => (nc.length + j, cv.1, (cv.2 : Rat)))
-        match dqmAddEq d1 (terms ++ extra) lam (-(ubc : Rat)) with
-        | some d' => "ok " ++ String.intercalate "," (sv.map showSlackVar) ++ ";" ++ showDqm d'
-        | none => "err"
+      match dqmIneq d method (hexLabel label) (terms.map fun t => (t.1, t.2.1, t.2.2.num)) lam c lb ub (cross = "1") with
+      | .skipped => "skip"
+      | .raises => "raise"
+      | .err => "err"
+      | .ok d' sv => "ok " ++ String.intercalate "," (sv.map showSlackVar) ++ ";" ++ showDqm d'
     | _, _, _, _, _, _, _, _, _, _ => "bad-op"
   | ["ineqbqm", lam, label, c, lb, ub, cross, terms] =>
     match parseRat? lam, c.toInt?, lb.toInt?, ub.toInt?, parseTerms terms with
     | some lam, some c, some lb, some ub, some terms =>
-      let coeffs := terms.map fun t => t.2.num
-      match ineqPlan coeffs c lb ub with
-      | .skip => "skip"
-      | .infeasible => "raise"
-      | .equality ubc =>
-        "ok ;" ++ showBq ((Bq.empty .binary : Bq Label).apply (eqTermsCy .binary terms lam (-(ubc : Rat)))) false
-      | .slack ubc lbc S =>
-        let sl := bqmSlack (hexLabel label) ubc lbc S (cross = "1")
-        let bag := sl.map (fun p => PTerm.lin p.1 0)
-          ++ eqTermsCy .binary (terms ++ sl.map (fun p => (p.1, (p.2 : Rat)))) lam (-(ubc : Rat))
+      match bqmIneq (hexLabel label) (terms.map fun t => (t.1, t.2.num)) lam c lb ub (cross = "1") with
+      | .skipped => "skip"
+      | .raises => "raise"
+      | .err => "err"
+      | .ok bag sl =>
         "ok " ++ String.intercalate "," (sl.map fun p => s!"{showLabel p.1}={p.2}") ++ ";"
           ++ showBq ((Bq.empty .binary : Bq Label).apply bag) false
     | _, _, _, _, _ => "bad-op"
   | ["ineqdqm", method, nc, lam, label, c, lb, ub, cross, terms] =>
     match parseNats nc, parseRat? lam, c.toInt?, lb.toInt?, ub.toInt?, parseDqmTerms terms with
     | some nc, some lam, some c, some lb, some ub, some terms =>
-      let coeffs := terms.map fun t => t.2.2.num
-      match ineqPlan coeffs c lb ub with
-      | .skip => "skip"
-      | .infeasible => "raise"
-      | .equality ubc =>
-        match dqmEqTerms nc terms lam (-(ubc : Rat)) with
-        | some bag => "ok ;" ++ showBqNat ((Bq.empty .binary : Bq Nat).apply bag) (nc.foldl (· + ·) 0)
-        | none => "err"
-      | .slack ubc lbc S =>
-        let sv := dqmSlack (hexLabel label) method ubc lbc S (cross = "1")
-        let nc' := nc ++ sv.map (·.ncases)
-        let extra := (List.range sv.length).flatMap fun j =>
-          ((sv.getD j { label := "", ncases := 0, cases := [] }).cases.map fun cv => (nc.length + j, cv.1, (cv.2 : Rat)))
-        match dqmEqTerms nc' (terms ++ extra) lam (-(ubc : Rat)) with
-        | some bag => "ok " ++ String.intercalate "," (sv.map showSlackVar) ++ ";" ++ showBqNat ((Bq.empty .binary : Bq Nat).apply bag) (nc'.foldl (· + ·) 0)
-        | none => "err"
+      let d : Dqm := { ncases := nc, bq := Bq.empty .binary, adj := List.replicate nc.length [] }
+      match dqmIneq d method (hexLabel label) (terms.map fun t => (t.1, t.2.1, t.2.2.num)) lam c lb ub (cross = "1") with
+      | .skipped => "skip"
+      | .raises => "raise"
+      | .err => "err"
+      | .ok d' sv => "ok " ++ String.intercalate "," (sv.map showSlackVar) ++ ";" ++ showBqNat d'.bq (d'.ncases.foldl (· + ·) 0)
     | _, _, _, _, _, _ => "bad-op"
   | ["benc", l, ub] =>
     match parseLabel? l, ub.toNat? with
